@@ -533,7 +533,7 @@ class Tr:
                 al = " ".join(f"({c})" if " " in c and not c.startswith("(") else c for c in cs)
                 pre = ("h " if how.get("heap") else "") + ("fuel " if how.get("rec") else "")  # main: heap first, then fuel
                 ups = how.get("updates", [])
-                pat = x if not ups else "(" + ", ".join([x] + ups) + ")"
+                pat = x if not ups else "(" + ", ".join([x] + [("self_" + u if u in self.fields else u) for u in ups]) + ")"
                 return bs + [f"let {pat} ← {how['lean']} {pre}{al}"], x, parse_type(how["ret"])
         raise Untranslatable(f"call {src}")
 
@@ -1538,6 +1538,13 @@ def driver_source(specs, status, src_root):
                                ' (fun g => match g with | none => Except.error Err.other | some k => '
                                'if ((fromJ (argAt args 12)) : List Nat).contains k then Except.error Err.other '
                                'else Except.ok ((((fromJ (argAt args 13)) : List (Nat × Nat)).lookup k))) ' + me.replace("K", "14") + ")")
+            continue
+        if spec["lean"] == "TimeDelayAdapter_get_data":
+            # `with_delay` of the subclass: the translated `DelayFixed.with_delay` with the adapter's delay and initial time
+            imports.append("import FinamModel.Translated.TimeDelayAdapter_get_data")
+            imports.append("import FinamModel.Translated.DelayFixed_with_delay")
+            cases.append('  | "TimeDelayAdapter_get_data" => toJ (Tr.TimeDelayAdapter_get_data (α := Int) (fromJ (argAt args 0)) (fromJ (argAt args 1)) '
+                         '(fromJ (argAt args 2)) (fromJ (argAt args 3)) (Tr.DelayFixed_with_delay (fromJ (argAt args 4)) (fromJ (argAt args 5))) (fromJ (argAt args 6)))')
             continue
         if spec.get("group") == "Spill":
             # stored entries are integers (even: a quantity, odd: the file `2 n + 1` = "<id>-<n>.npy"), the disk a list of
